@@ -16,7 +16,10 @@ type level struct {
 	pre             []string
 	args            string // argument list of the call expression making this activation (token, "" = none)
 	file            int    // file the activation's code is in (0 = the program, 1 = the pre-statement eval source "1", 2.. = eval-level sources)
+	head            string
 }
+
+// (level.head: kind of token the call-site offset must point at: id, new, arr, str, obj, num, this; "" = unchecked)
 
 type progGen struct {
 	r      *h.Rng
@@ -284,10 +287,120 @@ func (g *progGen) body(levels []*level, i int, sh shape, raise func(g *progGen))
 		src := g.popFile()
 		g.w(jsStr(src) + ");")
 		if direct {
-			*lv = level{"ed", "id", "", off, lv.pre, "", k}
+			*lv = level{"ed", "id", "", off, lv.pre, "", k, ""}
 		} else {
-			*lv = level{"ei", "id", "", off, lv.pre, "", k}
+			*lv = level{"ei", "id", "", off, lv.pre, "", k, ""}
 		}
+		return
+	}
+	if g.r.Chance(14) {
+		// method call whose callee chain begins with something other than a plain identifier: the call site is the
+		// first token of that head (`new`, `[`, `"`, `{`, the first operand of a parenthesised sequence, `this`, …)
+		name := ""
+		if g.r.Bool() {
+			name = g.fresh("m")
+		}
+		m := g.fresh("q")
+		acc := func() string { // dot or bracket access of the method
+			if g.r.Bool() {
+				lv.form = "dot"
+				return "." + m
+			}
+			lv.form = "brk"
+			return "[\"" + m + "\"]"
+		}
+		nw := func() { // the keyword `new`, sometimes with a line break before the constructor
+			g.w("new")
+			if g.r.Chance(30) {
+				g.w("\n   ")
+			} else {
+				g.w(" ")
+			}
+		}
+		var callee []string // calls completed while the callee expression is evaluated
+		head := g.r.Intn(9)
+		var off int
+		var hd string
+		switch head {
+		case 0, 1: // new C().m()   /   (new C).m()
+			c := g.fresh("C")
+			g.w("function " + c + "(){ this." + m + " = ")
+			fn(name)
+			g.w("; };")
+			preStmts()
+			if head == 1 {
+				g.w("(")
+			}
+			off, hd = g.idx(), "new"
+			nw()
+			callee = append(callee, fmt.Sprintf("c:id:%d", g.idx()))
+			if head == 1 {
+				g.w(c + ")")
+			} else {
+				g.w(c + "()")
+			}
+		case 2: // new (mk())().m()
+			c, mk := g.fresh("C"), g.fresh("mk")
+			g.w("function " + c + "(){ this." + m + " = ")
+			fn(name)
+			g.w("; }; function " + mk + "(){ return " + c + "; };")
+			preStmts()
+			off, hd = g.idx(), "new"
+			nw()
+			g.w("(")
+			callee = append(callee, fmt.Sprintf("c:id:%d", g.idx()), "c:oth:0")
+			g.w(mk + "())()")
+		case 3: // [1].m()
+			g.w("Array.prototype." + m + " = ")
+			fn(name)
+			g.w(";")
+			preStmts()
+			off, hd = g.idx(), "arr"
+			g.w("[1, 2]")
+		case 4: // "s".m()
+			g.w("String.prototype." + m + " = ")
+			fn(name)
+			g.w(";")
+			preStmts()
+			off, hd = g.idx(), "str"
+			g.w("\"s\"")
+		case 5: // ({m: function(){…}}).m()
+			preStmts()
+			g.w("(")
+			off, hd = g.idx(), "obj"
+			g.w("{" + m + ": ")
+			fn(name)
+			g.w("})")
+		case 6: // (0, o).m()
+			o := g.fresh("o")
+			g.w("var " + o + " = {" + m + ": ")
+			fn(name)
+			g.w("};")
+			preStmts()
+			g.w("(")
+			off, hd = g.idx(), "num"
+			g.w("0, " + o + ")")
+		case 7: // mk().m()
+			o, mk := g.fresh("o"), g.fresh("mk")
+			g.w("var " + o + " = {" + m + ": ")
+			fn(name)
+			g.w("}; function " + mk + "(){ return " + o + "; };")
+			preStmts()
+			off, hd = g.idx(), "id"
+			callee = append(callee, fmt.Sprintf("c:id:%d", off))
+			g.w(mk + "()")
+		default: // this.m()
+			g.w("this." + m + " = ")
+			fn(name)
+			g.w(";")
+			preStmts()
+			off, hd = g.idx(), "this"
+			g.w("this")
+		}
+		pre := append(lv.pre, callee...)
+		*lv = level{"d", "dot", name, off, pre, "", cf, hd}
+		g.w(acc())
+		g.callTail(lv, !sh.recordedOnly)
 		return
 	}
 	pick := g.r.Intn(100)
@@ -299,7 +412,7 @@ func (g *progGen) body(levels []*level, i int, sh shape, raise func(g *progGen))
 		n := g.fresh("f")
 		fnDecl(n)
 		preStmts()
-		*lv = level{"d", "id", n, g.idx(), lv.pre, "", cf}
+		*lv = level{"d", "id", n, g.idx(), lv.pre, "", cf, ""}
 		g.w(n + "")
 		g.callTail(lv, !sh.recordedOnly)
 	case pick < 16: // anonymous function in a variable; sometimes parenthesised callee
@@ -310,11 +423,11 @@ func (g *progGen) body(levels []*level, i int, sh shape, raise func(g *progGen))
 		preStmts()
 		if g.r.Chance(30) {
 			g.w("(")
-			*lv = level{"d", "id", "", g.idx(), lv.pre, "", cf}
+			*lv = level{"d", "id", "", g.idx(), lv.pre, "", cf, ""}
 			g.w(n + ")")
 			g.callTail(lv, !sh.recordedOnly)
 		} else {
-			*lv = level{"d", "id", "", g.idx(), lv.pre, "", cf}
+			*lv = level{"d", "id", "", g.idx(), lv.pre, "", cf, ""}
 			g.w(n + "")
 			g.callTail(lv, !sh.recordedOnly)
 		}
@@ -328,11 +441,11 @@ func (g *progGen) body(levels []*level, i int, sh shape, raise func(g *progGen))
 		g.w("};")
 		preStmts()
 		if g.r.Bool() {
-			*lv = level{"d", "dot", name, g.idx(), lv.pre, "", cf}
+			*lv = level{"d", "dot", name, g.idx(), lv.pre, "", cf, ""}
 			g.w(o + ".m")
 			g.callTail(lv, !sh.recordedOnly)
 		} else {
-			*lv = level{"d", "brk", name, g.idx(), lv.pre, "", cf}
+			*lv = level{"d", "brk", name, g.idx(), lv.pre, "", cf, ""}
 			g.w(o + "[\"m\"]")
 			g.callTail(lv, !sh.recordedOnly)
 		}
@@ -342,7 +455,7 @@ func (g *progGen) body(levels []*level, i int, sh shape, raise func(g *progGen))
 		preStmts()
 		if g.r.Chance(70) {
 			g.w("new ")
-			*lv = level{"n", "id", n, g.idx(), lv.pre, "", cf}
+			*lv = level{"n", "id", n, g.idx(), lv.pre, "", cf, ""}
 			g.w(n + "")
 			g.callTail(lv, !sh.recordedOnly)
 		} else {
@@ -351,11 +464,11 @@ func (g *progGen) body(levels []*level, i int, sh shape, raise func(g *progGen))
 			g.pad()
 			g.w("new ")
 			if g.r.Bool() {
-				*lv = level{"n", "dot", n, g.idx(), lv.pre, "", cf}
+				*lv = level{"n", "dot", n, g.idx(), lv.pre, "", cf, ""}
 				g.w(o + ".k")
 				g.callTail(lv, !sh.recordedOnly)
 			} else {
-				*lv = level{"n", "brk", n, g.idx(), lv.pre, "", cf}
+				*lv = level{"n", "brk", n, g.idx(), lv.pre, "", cf, ""}
 				g.w(o + "[\"k\"]")
 				g.callTail(lv, !sh.recordedOnly)
 			}
@@ -368,7 +481,7 @@ func (g *progGen) body(levels []*level, i int, sh shape, raise func(g *progGen))
 		}
 		preStmts()
 		form := "dot"
-		*lv = level{"v:" + nat.name, form, name, g.idx(), lv.pre, "", cf}
+		*lv = level{"v:" + nat.name, form, name, g.idx(), lv.pre, "", cf, ""}
 		g.w(nat.recv + "." + nat.name + "(" + nat.extra)
 		fn(name)
 		lead := "l"
@@ -385,7 +498,7 @@ func (g *progGen) body(levels []*level, i int, sh shape, raise func(g *progGen))
 		if g.r.Bool() {
 			m = "apply"
 		}
-		*lv = level{"v:" + m, "dot", n, g.idx(), lv.pre, "", cf}
+		*lv = level{"v:" + m, "dot", n, g.idx(), lv.pre, "", cf, ""}
 		if m == "call" {
 			g.w(n + ".call(null")
 			lv.args = "(l" + g.extraArgs(!sh.recordedOnly) + ")"
@@ -400,7 +513,7 @@ func (g *progGen) body(levels []*level, i int, sh shape, raise func(g *progGen))
 		fnDecl(n)
 		g.w(" var " + bn + " = " + n + ".bind(null);")
 		preStmts()
-		*lv = level{"b", "id", n, g.idx(), lv.pre, "", cf}
+		*lv = level{"b", "id", n, g.idx(), lv.pre, "", cf, ""}
 		g.w(bn + "")
 		g.callTail(lv, !sh.recordedOnly)
 	case pick < 70: // identifier callee that is a bound native: ap() = f.call() (bound passthrough into the native `call`, which calls f)
@@ -408,7 +521,7 @@ func (g *progGen) body(levels []*level, i int, sh shape, raise func(g *progGen))
 		fnDecl(n)
 		g.w(" var " + ap + " = " + n + ".call.bind(" + n + ");")
 		preStmts()
-		*lv = level{"v:call", "id", n, g.idx(), lv.pre, "", cf}
+		*lv = level{"v:call", "id", n, g.idx(), lv.pre, "", cf, ""}
 		g.w(ap + "")
 		g.callTail(lv, !sh.recordedOnly)
 	case pick < 80: // immediately invoked function expression: callee is a function literal
@@ -420,13 +533,13 @@ func (g *progGen) body(levels []*level, i int, sh shape, raise func(g *progGen))
 		if g.r.Chance(25) {
 			g.w("new ")
 			g.w("(")
-			*lv = level{"n", "oth", name, g.idx(), lv.pre, "", cf}
+			*lv = level{"n", "oth", name, g.idx(), lv.pre, "", cf, ""}
 			fn(name)
 			g.w(")")
 			g.callTail(lv, !sh.recordedOnly)
 		} else {
 			g.w("(")
-			*lv = level{"d", "oth", name, g.idx(), lv.pre, "", cf}
+			*lv = level{"d", "oth", name, g.idx(), lv.pre, "", cf, ""}
 			fn(name)
 			g.w(")")
 			g.callTail(lv, !sh.recordedOnly)
@@ -438,7 +551,7 @@ func (g *progGen) body(levels []*level, i int, sh shape, raise func(g *progGen))
 		g.w("; };")
 		preStmts()
 		lv.pre = append(lv.pre, fmt.Sprintf("c:id:%d", g.idx()))
-		*lv = level{"d", "oth", "", g.idx(), lv.pre, "", cf}
+		*lv = level{"d", "oth", "", g.idx(), lv.pre, "", cf, ""}
 		g.w(mk + "()")
 		g.callTail(lv, !sh.recordedOnly)
 	case pick < 90: // sequence-expression callee
@@ -447,7 +560,7 @@ func (g *progGen) body(levels []*level, i int, sh shape, raise func(g *progGen))
 		fn("")
 		g.w(";")
 		preStmts()
-		*lv = level{"d", "oth", "", g.idx(), lv.pre, "", cf}
+		*lv = level{"d", "oth", "", g.idx(), lv.pre, "", cf, ""}
 		g.w("(0, " + n + ")")
 		g.callTail(lv, !sh.recordedOnly)
 	default: // implicit calls: getter, toString, valueOf
@@ -458,21 +571,21 @@ func (g *progGen) body(levels []*level, i int, sh shape, raise func(g *progGen))
 			inner()
 			g.w("}};")
 			preStmts()
-			*lv = level{"i", "oth", "", g.idx(), lv.pre, "", cf}
+			*lv = level{"i", "oth", "", g.idx(), lv.pre, "", cf, ""}
 			g.w(o + ".x;")
 		case 1:
 			g.w("var " + o + " = {toString: ")
 			fn("")
 			g.w("};")
 			preStmts()
-			*lv = level{"i", "oth", "", g.idx(), lv.pre, "", cf}
+			*lv = level{"i", "oth", "", g.idx(), lv.pre, "", cf, ""}
 			g.w("\"\" + " + o + ";")
 		default:
 			g.w("var " + o + " = {valueOf: ")
 			fn("")
 			g.w("};")
 			preStmts()
-			*lv = level{"i", "oth", "", g.idx(), lv.pre, "", cf}
+			*lv = level{"i", "oth", "", g.idx(), lv.pre, "", cf, ""}
 			g.w("+" + o + ";")
 		}
 	}
@@ -491,7 +604,7 @@ func nativeRaise(recv, name, args string, form string) raiser {
 			}
 			return g.extraArgs(!sh.recordedOnly)
 		}
-		lv := &level{"N", form, name, g.idx(), nil, "", 0}
+		lv := &level{"N", form, name, g.idx(), nil, "", 0, ""}
 		g.w(recv + "(")
 		if g.r.Chance(45) {
 			// the essential argument comes out of a call: recv(idf(args))
@@ -528,6 +641,16 @@ var raisers = map[string][]raiser{
 		},
 	},
 	"callNonFn": {
+		func(g *progGen, sh shape) (*level, string) {
+			heads := []struct {
+				text, hd string
+				skip     int
+			}{{"new K0()", "new", 0}, {"new\n K0()", "new", 0}, {"[1]", "arr", 0}, {"\"s\"", "str", 0}, {"({})", "obj", 1}, {"this", "this", 0}, {"(new K0)", "new", 1}}
+			h := heads[g.r.Intn(len(heads))]
+			o := g.idx() + h.skip
+			g.w(h.text + ".nope9();")
+			return nil, fmt.Sprintf("nf:dot:%d:%s", o, h.hd)
+		},
 		func(g *progGen, sh shape) (*level, string) {
 			o := g.idx()
 			g.w("nf();")
@@ -569,6 +692,20 @@ var raisers = map[string][]raiser{
 		},
 	},
 	"memberUndefined": {
+		func(g *progGen, sh shape) (*level, string) {
+			heads := []struct {
+				text, hd string
+				skip     int
+			}{{"new K0()", "new", 0}, {"new\n\n K0()", "new", 0}, {"[1]", "arr", 0}, {"\"s\"", "str", 0}, {"({})", "obj", 1}, {"this", "this", 0}}
+			h := heads[g.r.Intn(len(heads))]
+			o := g.idx() + h.skip
+			if g.r.Bool() {
+				g.w(h.text + ".o9.p.q;")
+			} else {
+				g.w(h.text + "[\"o9\"].p;")
+			}
+			return nil, fmt.Sprintf("at:%d:%s", o, h.hd)
+		},
 		func(g *progGen, sh shape) (*level, string) {
 			o := g.idx()
 			g.w("nu.p;")
@@ -666,7 +803,7 @@ func levelTok(lv *level) string {
 	if len(lv.pre) > 0 {
 		pre = strings.Join(lv.pre, "+")
 	}
-	return fmt.Sprintf("%s,%s,%s,%d,%s,%d,%s", lv.via, lv.form, dash(lv.name), lv.off, pre, lv.file, dash(lv.args))
+	return fmt.Sprintf("%s,%s,%s,%d,%s,%d,%s,%s", lv.via, lv.form, dash(lv.name), lv.off, pre, lv.file, dash(lv.args), dash(lv.head))
 }
 
 var fileNames = []string{"", "", "a.js", "lib/x.js", "t_1.js"}
@@ -826,6 +963,16 @@ func genAll(c *h.Ctx) {
 	for _, k := range clsKinds {
 		for v := 0; v < len(clsConstructs[k])*len(clsWrap); v++ {
 			c.Add(fmt.Sprintf("cls %s %d", k, v), "cls")
+		}
+	}
+	// (3b) the trace limit on copies: every configured limit x stack-depth limit x number of Copy() x nesting depth
+	for _, tl := range []string{"d", "0", "1", "2", "3", "5", "9", "10", "11", "12", "25", "-1"} {
+		for n := 0; n <= 3; n++ {
+			for d := 0; d <= c.N(26, 40); d++ {
+				for _, sl := range []int{0, d + 10, 500} {
+					c.Add(fmt.Sprintf("climit %s %d %d %d", tl, sl, n, d), "climit", fmt.Sprintf("climit:copies:%d", n))
+				}
+			}
 		}
 	}
 	// (4) Run's error text
